@@ -87,7 +87,7 @@ func (e *integEngine) checkC12(x *integExpect) {
 			}
 			continue
 		}
-		rt := e.tasks[t.Name]
+		rt := e.resultTask(t.Name)
 		if rt.Skipped {
 			continue
 		}
@@ -214,7 +214,7 @@ func (e *integEngine) checkC13(x *integExpect) {
 			}
 		}
 		known, ok := e.taskSucceeded(t.Name)
-		rt := e.tasks[t.Name]
+		rt := e.resultTask(t.Name)
 		if overrun >= 0 {
 			o := rs[overrun]
 			for _, r := range rs[overrun+1:] {
